@@ -781,6 +781,7 @@ VH_CMD(net_privacy)
                 const int s = rng.pick(spies);
                 net.Send(s, "mempool", {}, "bip35");
             }
+            mp.Poll(net);
         }
         net.Ev(vh::J().str("ev", "end"));
         vh::log().obs("sessions");
@@ -1316,13 +1317,14 @@ VH_CMD(net_unrequested)
             const BlkStatus st = net.Status(h);
             return vh::J().b("known", st.known).b("have_data", st.have_data).b("failed", st.failed).u("ntx", st.ntx).b("active", st.in_active).done();
         };
-        auto anc_have_data = [&](const uint256& h) {
+        auto anc_have_data = [&](const CBlock& b) {
+            // every ancestor down to the active chain has its data (so the block can be connected once stored)
             LOCK(cs_main);
-            const CBlockIndex* pi = net.chainman().m_blockman.LookupBlockIndex(h);
+            const CBlockIndex* pi = net.chainman().m_blockman.LookupBlockIndex(b.hashPrevBlock);
             if (!pi) return false;
-            for (pi = pi->pprev; pi; pi = pi->pprev) {
-                if (!(pi->nStatus & BLOCK_HAVE_DATA)) return false;
+            for (; pi; pi = pi->pprev) {
                 if (net.chainman().ActiveChain().Contains(*pi)) break;
+                if (!(pi->nStatus & BLOCK_HAVE_DATA)) return false;
             }
             return true;
         };
@@ -1333,7 +1335,7 @@ VH_CMD(net_unrequested)
             const uint256 tip_hash = net.TipHash();
             const uint64_t usage0 = net.BlockFileBytes();
             const std::string before = describe(cd.cb.hash);
-            const bool anc = anc_have_data(cd.cb.hash);
+            const bool anc = anc_have_data(*cd.cb.block);
             bool ret = false, nb = false;
             int via_peer = -1;
             if (via_net) {
